@@ -42,6 +42,7 @@ class Contract:
     self.always = list(kw.pop('always', ()))        # clauses checked on normal AND exceptional exit
     self.note = kw.pop('note', '')
     self.canary = kw.pop('canary', True)
+    self.at_release = dict(kw.pop('at_release', {}))   # lock expr -> clauses that must hold whenever it is released
     self.variant = kw.pop('variant', '')            # distinguishes several contracts of one target
     if kw:
       raise TypeError(f'unknown contract keys {list(kw)}')
@@ -111,7 +112,7 @@ class Registry:
 
   def load_dir(self, path, only=None):
     for fn in sorted(os.listdir(path)):
-      if fn.endswith('.py') and not fn.startswith('_'):
+      if fn.endswith('.py') and not fn.startswith('_') and fn[0] == 'C' and fn[1:3].isdigit():
         if only and not any(fn.startswith(o) for o in only):
           continue
         spec = importlib.util.spec_from_file_location('contracts_' + fn[:-3], os.path.join(path, fn))
